@@ -115,13 +115,10 @@ Definition refine_step (K : Refine.consts) (me : Refine.method) (m : Refine.meas
     set_disp p (fst l) (fst r_) (snd l) (snd r_).
 
 (* ------------------------------------------------------------------ filters
-   [None] of median_filter_disparity (ValueError: image smaller than the window) leaves the pixel as
-   it is: it cannot happen when the cone of the pixel is inside the image. *)
+   An image smaller than the window is left untouched by median_filter (early return of the repaired
+   code): it cannot happen when the cone of the pixel is inside the image. *)
 Definition median_map (inv B w ny nx : Z) (disp : Z -> Z -> option Q) (mask : Z -> Z -> Z) (r c : Z) : option Q :=
-  match Filters.median_filter_disparity inv B w ny nx disp mask with
-  | Some (d, _) => d r c
-  | None => disp r c
-  end.
+  fst (Filters.median_filter_disparity inv B w ny nx disp mask) r c.
 
 Definition median_step (inv B w : Z) : op pix pix := fun F r c =>
   let p := f_at F r c in
